@@ -48,6 +48,9 @@ OpsOn(st) ==
  \cup {Op("export", n, "-", "-") : n \in {x \in VarNames : st.vars[x].kind = "scalar" /\ ~st.vars[x].ex}}
  \cup {Op("unexport", n, "-", "-") : n \in {x \in VarNames : st.vars[x].ex}}
  \cup {Op("deffunc", "f1", "1", "-")}
+ \* body 3 calls the alias name a1.  bash expands aliases when it READS a function definition, not when it runs it: the body
+ \* keeps what the alias was (or that there was none) at definition time, whatever happens to the alias later
+ \cup {Op("deffunc", "f1", "3", "-")}
  \* body 2 uses an extended glob pattern: bash can only parse it while `extglob` is on
  \cup {Op("deffunc", "f1", "2", "-") : x \in {y \in {1} : "extglob" \in st.shopts}} \cup {Op("unsetfunc", "f1", "-", "-") : x \in {y \in {1} : st.funcs["f1"] # "0"}}
  \cup {Op("defalias", "a1", b, "-") : b \in {"1", "2"}} \cup {Op("unalias", "a1", "-", "-") : x \in {y \in {1} : st.aliases["a1"] # "0"}}
@@ -72,7 +75,8 @@ Apply(st, o) ==
       [] o.op = "unsetvar"    -> [st EXCEPT !.vars[o.a] = UnsetVar]
       [] o.op = "export"      -> [st EXCEPT !.vars[o.a].ex = TRUE]
       [] o.op = "unexport"    -> [st EXCEPT !.vars[o.a].ex = FALSE]
-      [] o.op = "deffunc"     -> [st EXCEPT !.funcs[o.a] = o.b]
+      [] o.op = "deffunc"     -> [st EXCEPT !.funcs[o.a] = IF o.b # "3" THEN o.b
+                                                                 ELSE CASE st.aliases["a1"] = "1" -> "3e1" [] st.aliases["a1"] = "2" -> "3e2" [] OTHER -> "3"]
       [] o.op = "unsetfunc"   -> [st EXCEPT !.funcs[o.a] = "0"]
       [] o.op = "defalias"    -> [st EXCEPT !.aliases[o.a] = o.b]
       [] o.op = "unalias"     -> [st EXCEPT !.aliases[o.a] = "0"]
